@@ -452,9 +452,23 @@ async fn main() {
     std::panic::set_hook(Box::new(|i| {
         let loc = i.location().map(|l| format!("{}:{}", l.file(), l.line())).unwrap_or_default();
         let msg = i.payload().downcast_ref::<&str>().map(|s| s.to_string()).or_else(|| i.payload().downcast_ref::<String>().cloned()).unwrap_or_default();
-        // first frame that belongs to the program under test (symbol names survive without debug info)
-        let bt = std::backtrace::Backtrace::force_capture().to_string();
-        let frame = bt.lines().map(|l| l.trim()).find(|l| (l.contains("marginfi::") || l.contains("marginfi_type_crate::") || l.contains("_mocks::")) && !l.contains("rig1::")).map(|l| l.splitn(2, ": ").nth(1).unwrap_or(l).to_string()).unwrap_or_default();
+        // first frame that belongs to the program under test (symbol names survive without debug
+        // info). Symbolising a backtrace costs milliseconds, so it is done once per panic location
+        // and message (the frame does not change between occurrences).
+        static FRAMES: std::sync::Mutex<Option<std::collections::HashMap<String, String>>> = std::sync::Mutex::new(None);
+        let key = format!("{}|{}", loc, msg.chars().take(40).collect::<String>());
+        let mut guard = FRAMES.lock().unwrap();
+        let map = guard.get_or_insert_with(Default::default);
+        let frame = match map.get(&key) {
+            Some(f) => f.clone(),
+            None => {
+                let bt = std::backtrace::Backtrace::force_capture().to_string();
+                let f = bt.lines().map(|l| l.trim()).find(|l| (l.contains("marginfi::") || l.contains("marginfi_type_crate::") || l.contains("_mocks::")) && !l.contains("rig1::")).map(|l| l.splitn(2, ": ").nth(1).unwrap_or(l).to_string()).unwrap_or_default();
+                map.insert(key, f.clone());
+                f
+            }
+        };
+        drop(guard);
         let short_loc = loc.rsplit("/registry/src/").next().map(|x| x.splitn(2, '/').nth(1).unwrap_or(x).to_string()).unwrap_or(loc.clone());
         let short_msg: String = msg.chars().take(60).collect();
         *tap::LAST_PANIC.lock().unwrap() = Some(format!("{} | {} | {}", short_msg, short_loc, frame));
